@@ -497,7 +497,8 @@ MC_QUICK = {
     "closeidle": ("MC_Reqs2", "MC_MenuQ3", 4, 0, 0, 0, 0, 0, 1, "MC_VTabA", ALLK),
 }
 MC_THOROUGH = {
-    "one": ("MC_Reqs1", "MC_Menu1", 3, 2, 1, 1, 1, 0, 0, "MC_VTabB", ALLK),
+    "one": ("MC_Reqs1", "MC_Menu1", 3, 2, 0, 0, 1, 0, 0, "MC_VTabB", ALLK),
+    "onefault": ("MC_Reqs1", "MC_Menu1", 3, 1, 1, 1, 1, 0, 0, "MC_VTabB", "leader remove coord"),
     "route": ("MC_Reqs2", "MC_MenuQ1", 3, 1, 0, 0, 1, 0, 0, "MC_VTabA", ALLK),
     "fault": ("MC_Reqs2", "MC_MenuQ2", 4, 1, 1, 1, 0, 1, 0, "MC_VTabB", "leader coord"),
     "create": ("MC_Reqs2", "MC_MenuQ3", 4, 1, 0, 0, 1, 0, 0, "MC_VTabA", "ctrlr topic add"),
